@@ -63,7 +63,7 @@ def main():
     quick = rep.tier == 'quick'
     cases = (flavour_matrix() + F.time_enumerated(rep.tier) + F.cf_enumerated() + F.cf_random(rep.seed, 80 if quick else 800)
              + F.fault_templates() + F.seq_enumerated()[::2 if quick else 1] + F.time_random(rep.seed, 60 if quick else 600)
-             + F.scope_templates()[::3 if quick else 1] + F.op_positions())
+             + F.scope_templates()[::3 if quick else 1] + F.op_positions() + F.usesite_matrix()[::3 if quick else 1])
     widths = [2, 3] if quick else [2, 3, 4, 8]
     tasks = []
     for W in widths:
